@@ -9,6 +9,7 @@ package kvql
 //@   requires c != nil
 //@   assigns mapof(c.FieldCaches), mapof(c.FieldChunkCaches), mapof(c.FieldChunkKeyCaches)
 //@   ensures c.EnableCache && c.FieldCaches != nil ==> (forall q B :: !has(c.FieldCaches, q))
+//@   ensures[C05] chunk: c.EnableCache && c.FieldChunkKeyCaches != nil ==> (forall q B :: !has(c.FieldChunkKeyCaches, q))
 //
 //@ func (c *ExecuteCtx) UpdateHit()
 //@   props C05
@@ -29,7 +30,7 @@ package kvql
 //@ define wfCtx(ctx *ExecuteCtx) Bool = ctx == nil || !ctx.EnableCache || ctx.FieldCaches != nil
 // Every alias reference points at the select field of its name (established by the checker's
 // rewriting: A-ALIAS).
-//@ define wfRefs() Bool = forall r Ref :: is(r, *FieldReferenceExpr) ==> as(r, *FieldReferenceExpr).Name != nil && as(r, *FieldReferenceExpr).FieldExpr != nil && aliasOf(val(as(r, *FieldReferenceExpr).Name.Data)) == as(r, *FieldReferenceExpr).FieldExpr
+//@ define wfRefs() Bool = forall r Ref :: is(r, *FieldReferenceExpr) ==> as(r, *FieldReferenceExpr).Name != nil && as(r, *FieldReferenceExpr).FieldExpr != nil && aliasOf(val(as(r, *FieldReferenceExpr).Name.Data)) == as(r, *FieldReferenceExpr).FieldExpr && isAlias(val(as(r, *FieldReferenceExpr).Name.Data))
 //
 //@ func (c *ExecuteCtx) GetFieldResult(name string) (v any, have bool)
 //@   props C05
